@@ -24,6 +24,8 @@ CLAIMED = {
          "MIR-driver rules: dominance / must-pass-through, typestate as CFG path property, dataflow identity, twin agreement"),
  "C18": ("other", "Content-type gate dominance before the body is taken, value provenance (client_from_slice over read_body(.., None)), 204 table, blocking/async twin agreement, unlimited reassembly completeness and stream-error propagation, panic inventory; generated instance: all 112 client methods joined with the IR ask for and decode the class their return type prescribes and return the helper's result unchanged.", "4/C18",
          "MIR-driver rules: gate dominance, dataflow provenance, table, twin agreement, IR-joined instance validation"),
+ "C19": ("other", "Helpers attach param=<own log_as parameter> to decoder errors (followed into the map_err closure's captures) and return Ok untouched; error class by type argument over all decoders and auth parsing; cardinality conditions of only_item/optional_item; template provenance of the log-name slot in the endpoint macro; generated instance joined with the IR: 27 arguments x 4 handlers each report the IR argName and use the IR ids; handler invoked once after all extractions succeeded.", "4/C19",
+         "MIR-driver rules: closure-capture dataflow, error class by type argument, control dependence, quote!-template provenance, IR-joined instance validation"),
 }
 NA = {
  "C11": "Content negotiation quantifies over parsed header lists and numeric q-values; its truth lives in comparator outcomes, not in the shape of the code. The structural clauses in reach are decided under C06/C04; a mirror of this implementation's iterator chain would be a brittle proxy (DESIGN.md section 4/C11).",
@@ -60,7 +62,7 @@ def main():
         "engines": [
             {"name": "mirfacts", "path": "/verif/mirfacts", "serves_properties": sorted(CLAIMED), "kind_free_text": "rustc_private driver (nightly) dumping analysis-phase MIR, impl/ADT tables, evaluated constants as JSON facts, injected via RUSTC_WORKSPACE_WRAPPER under cargo +nightly check"},
             {"name": "rules", "path": "/verif/vf", "serves_properties": sorted(CLAIMED), "kind_free_text": "Python rule library: CFG, dominators, control dependence, copy-chain dataflow, decision tables, typestate; one module per property"},
-            {"name": "tmpl", "path": "/verif/tmpl", "serves_properties": [], "kind_free_text": "syn-based quote!-template extractor for conjure-codegen / conjure-macros"},
+            {"name": "tmpl", "path": "/verif/tmpl", "serves_properties": ["C19"], "kind_free_text": "syn-based quote!-template extractor for conjure-codegen / conjure-macros"},
         ],
         "checks": checks,
         "not_applicable": na,
